@@ -771,3 +771,52 @@ def _continue_to_break(tree, marker):
                             i_.body[-1] = ast.Break()
                             return True
     return False
+
+
+@PROP.obligation('C10.export-account', canaries=[
+    mut.drop_kwarg('wallets', 'Wallet.wif', 'wif', 'account_id', 'the cosigner wallets are asked for their keys without the account'),
+    mut.Canary('Wallet.wif exports account 0 by default', 'wallets', lambda tree: _wif_default_zero(tree)),
+])
+def export_account(ctx):
+    """Wallet.wif() and Wallet.public_master() are the two exports cosigner wallets are built from; they must name the same keys.
+    public_master(account_id=None) means the wallet's default account - so does wif(): its account_id parameter defaults to None (not to
+    account 0), and in a multisig wallet both hand the account on to every cosigner wallet they ask (cs.wif(..., account_id=account_id) /
+    cs.public_master(account_id, ...)). An export of account 0 from a wallet that works on account 3 gives cosigner wallets that derive
+    other redeem scripts for the same path."""
+    q = 'wallets:Wallet.wif'
+    fn = ctx.repo.func(q)
+    a = fn.args
+    names = [x.arg for x in a.args]
+    dflt = dict(zip(names[len(names) - len(a.defaults):], a.defaults))
+    d = dflt.get('account_id')
+    ctx.saw('Wallet.wif(account_id=%s)' % (norm(d) if d is not None else 'required'))
+    ctx.require(d is None or (isinstance(d, ast.Constant) and d.value is None), q, 'the account_id parameter of Wallet.wif defaults to %s: a wallet that works on another account exports the keys of that one' % (norm(d) if d is not None else ''), fn,
+                'Wallet.create(..., account_id=3).wif() lists the account-0 key of the privately held cosigner')
+    n = 0
+    for meth in ('wif', 'public_master'):
+        f = ctx.repo.func('wallets:Wallet.' + meth)
+        for loop in ast.walk(f):
+            if isinstance(loop, ast.For) and norm(loop.iter) == 'self.cosigner':
+                for c in ast.walk(loop):
+                    if isinstance(c, ast.Call) and isinstance(c.func, ast.Attribute) and c.func.attr in ('wif', 'public_master') and norm(c.func.value) == loop.target.id:
+                        n += 1
+                        acc = next((k.value for k in c.keywords if k.arg == 'account_id'), None)
+                        if acc is None and c.func.attr == 'public_master' and c.args:
+                            acc = c.args[0]
+                        ctx.saw('Wallet.%s asks each cosigner wallet: %s' % (meth, norm(c)[:70]))
+                        ctx.require(acc is not None and norm(acc) == 'account_id', 'wallets:Wallet.' + meth, '`%s` does not hand the requested account on to the cosigner wallet' % norm(c)[:60], c,
+                                    'the exported list mixes the keys of account 0 with the keys of the requested account')
+    ctx.floor(n, 2, 'exports that ask the cosigner wallets')
+
+
+def _wif_default_zero(tree):
+    for cls in tree.body:
+        if isinstance(cls, ast.ClassDef) and cls.name == 'Wallet':
+            for f in cls.body:
+                if isinstance(f, ast.FunctionDef) and f.name == 'wif':
+                    a = f.args
+                    names = [x.arg for x in a.args]
+                    i = names.index('account_id') - (len(names) - len(a.defaults))
+                    a.defaults[i] = ast.Constant(0)
+                    return True
+    return False
